@@ -221,7 +221,7 @@ CLAIMED["C30"] = dict(
          "complete grids with 1-6 points per direction. get_component for symbolic tensors of rank 0-3: every 'xyz' string (both cases), "
          "every index tuple, 'trace', 'norm', 'sq' equal the algebraic operation; non-existing letters / wrong types raise. Per shape, for "
          "all real values. That the values at a grid point are those 'obtained by evaluating that point alone' rests on the per-k "
-         "independence of the Fourier back ends (C02/C03, not built). Observation (not part of the property): an index string longer than "
+         "independence of the Fourier back ends (C02/C03). Observation (not part of the property): an index string longer than "
          "the tensor rank silently indexes the k axis instead of raising.",
     note=TB + "; np.linalg.norm = sqrt of the sum of squares; on-grid test tolerance 1e-5 as coded")
 
@@ -235,6 +235,46 @@ CLAIMED["C22"] = dict(
          "vector sets. Closure under b -> -b with equal weights and 'whole shells of mesh vectors' are geometric and carried by a bounded "
          "stand-in only: find_bk_vectors on 4 (quick) / 9 (thorough) lattices covering the crystal systems and 2-3 meshes.",
     note=TB + "; np.linalg.svd treated as returning arbitrary factors (u=1, s=1, v symbolic spans all weight vectors); np.linalg.norm = Frobenius norm; is_parallel_shell receiving lattice coordinates is not examined")
+
+CLAIMED["C02"] = dict(
+    text="Every Fourier back end returns the spec sum F(X,k) = sum_R X[R] ph(k.R) of the SAME data at the SAME k-points, hence they agree: "
+         "the real text of FFT_R_to_k (all methods; fftw, numpy, slow and explicit k-list paths), fft_np / fft_W / execute_fft, "
+         "Rvectors.set_fft_R_to_k / apply_expdK / derivative / R_to_k / cRvec_shifted / shifts_*, utility.cached_einsum, Data_K_R.HH_K / Xbar / "
+         "_R_to_k_H / get_R_mat, Data_K._rotate / kpoints_all / nk and GridAbstract.points_FFT is executed on numpy object arrays with "
+         "symbolic matrix elements, symbolic K-point shift dK, symbolic k-list and symbolic Wannier centres; phases are formal characters "
+         "ph(linear form) and every obligation is coefficient-wise equality with the spec (z3, reals). Proved per shape (FFT boxes 2x1x1 ... "
+         "3x2x2 quick, up to 3x3x3 / 5x1x2 thorough; R-sets with vectors outside the box, +-R pairs and collisions modulo the box; 2 bands; "
+         "derivative orders 0-3; hermitian on/off): out[ik] (C order) = F(X_der, n/NKFFT + dK) resp. F(X_der, k_list[i]); HH_K Hermitian part; "
+         "Xbar('Ham',1) = U^dagger F U with the k-point's own U; derivatives of a Hermitian model are Hermitian without being forced. "
+         "Bounded stand-in (validates the external DFT contracts): installed code with real numpy.fft and pyfftw on random models, all four back ends.",
+    note=TB + "; external: numpy.fft.ifftn / pyfftw BACKWARD = normalised inverse DFT, fftn / FORWARD = unnormalised forward DFT; np.exp(2j*pi*x) = ph(x) with ph(x)ph(y)=ph(x+y), ph(n)=1; "
+              "characters of distinct linear forms independent (coefficient-wise comparison is sufficient; a mismatch is reported only with a replay on the real code or as a failed obligation); float products with 2*pi snapped to rationals")
+
+CLAIMED["C03"] = dict(
+    text="Chain of contracts: (1) Grid.get_K_list(use_symmetry=False) and (2) KpointBZ.Kp_fullBZ, Data_K.kpoints_all / nk, GridAbstract.points_FFT "
+         "(real text) executed for EVERY factorisation NKdiv x NKFFT of anisotropic meshes with up to 6 (quick) / 8 (thorough) points per "
+         "direction: FFT point i of K-point x is the dense-mesh point i*div+x in C order, every dense point exactly once, total weight "
+         "factor/nk = 1/prod(N); unbounded z3 lemma (non-linear integer arithmetic) that (i,x) -> i*div+x is a bijection onto the dense mesh for "
+         "ALL div, FFT >= 1 and k = n/(div*FFT); run()'s nested paralfunc (extracted by name) builds Data_K with dK = Kpoint.Kp_fullBZ; (3) "
+         "StaticCalculator.__call__ (unit shared with C13, 2-3 k-points) and DynamicCalculator.__call__ (symbolic matrix elements) return the "
+         "plain average over the k-points of a per-k summand; (5) determineNK exhaustively on sampled (NK, NKFFT, NKdiv, periodic) inputs. "
+         "That the interpolated data at a dense-mesh point do not depend on the factorisation or library is C02. Assumed, not proved: a "
+         "calculator's per-k summand depends only on the data at that k-point. Bounded stand-in: installed run() over factorisations of a "
+         "4x2x6 mesh with fftw and numpy for DOS / CumDOS / AHC.",
+    note=TB + "; float k-coordinates compared with the exact mesh to 1e-9; tetrahedron-corner offsets covered by C33")
+
+CLAIMED["C01"] = dict(
+    text="The real text of Rvectors (set_Rvec, remapper, remap_XX_from_grid_to_list_R, remap_XX_R, set_fft_q_to_R, q_to_R, reverseR, conj_XX_R), "
+         "WignerSeitz, utility.iterate_nd and fft.execute_fft is executed with CONCRETE geometry (real numpy floats: 3 (quick) / 4 (thorough) "
+         "lattices cubic / triclinic / hexagonal / orthorhombic, meshes with 1, 2 or 4 points per direction listed in shuffled order and "
+         "shifted by lattice vectors, centres on sites, bond centres, outside the home cell, coinciding; tolerances 1e-5..1e-2; scalar and "
+         "vector valued) and SYMBOLIC Hermitian matrices per mesh point: proved for all data that interpolating back gives the input at every "
+         "mesh point, that X(-R) = X(R)^dagger with every R paired, that the replica weights of every mesh vector and pair add to 1 (so to "
+         "N1 N2 N3 per pair), and that Rvectors.remap_XX_R (do_ws_dist) preserves the matrices at the mesh points. WignerSeitz.__call__ "
+         "for EVERY table of distances (symbolic reals, 2 mesh points x 3 replicas): >= 1 entry per mesh point, multiplicities, iRvec mod N. "
+         "Mesh sizes other than 1, 2, 4 need cyclotomic arithmetic the engine lacks: covered only by the bounded stand-in (installed code, "
+         "random lattices, meshes 1..5, both FFT libraries).",
+    note=TB + "; external DFT contract as in C02; 1./Ndegen read as the rational; np.allclose in the code's own sanity assertions read as equality; np.linalg.norm / np.unique on concrete geometry are real numpy")
 
 NOT_APPLICABLE = {
     "C20": "real-space symmetrisation is a data-dependent floating-point orbit search over irrep objects; its postcondition is only statable through an eigen-solver, no discrete/algebraic kernel is left once externals are abstracted (DESIGN section 7)",
